@@ -300,13 +300,81 @@ pub fn dead_and_late(r: &mut Report, seed: u64, mode: usize) {
     }
 }
 
+/// Servers that start after the joiner: server X is given three bootstrap addresses where nothing listens
+/// yet; another server Z joins through X meanwhile, so X's tables are not empty; then two of X's bootstrap
+/// addresses come alive (a first node B and a server C that joins through B; the third stays dead). X's
+/// next bootstrap - its list now has live servers - must connect the two groups: B learns X, and the
+/// knows-graph of {X, Z, B, C} is strongly connected.
+pub fn islands(r: &mut Report, seed: u64) {
+    r.eval();
+    let mut rng = Rng::new(seed);
+    let w = World::with_cfg(seed, NetCfg::default(), TraceLevel::Off);
+    let case = json!({"class":"islands","seed":seed.to_string()});
+    let b_addr = SocketAddrV4::new(Ipv4Addr::new(10, 51, 100, 1), 6881);
+    let c_addr = SocketAddrV4::new(Ipv4Addr::new(10, 51, 100, 2), 6881);
+    let d_addr = SocketAddrV4::new(Ipv4Addr::new(10, 51, 100, 3), 6881);
+    let mut list = vec![b_addr, c_addr, d_addr];
+    rng.shuffle(&mut list);
+    let x = w.spawn(NodeSpec::server(Ipv4Addr::new(10, 51, 0, 5), &list)).expect("x");
+    w.run_for(rng.range(1, 20) * SEC);
+    let z = w.spawn(NodeSpec::server(Ipv4Addr::new(10, 51, 0, 6), &[x.addr])).expect("z");
+    w.block_on(z.adht.bootstrapped(), 120 * SEC);
+    w.run_for(*rng.pick(&[5 * SEC, 40 * SEC, 3 * MIN, 8 * MIN]));
+    let mut bspec = NodeSpec::server(*b_addr.ip(), &[]);
+    bspec.port = Some(6881);
+    let b = w.spawn(bspec).expect("b");
+    let mut cspec = NodeSpec::server(*c_addr.ip(), &[b_addr]);
+    cspec.port = Some(6881);
+    let c = w.spawn(cspec).expect("c");
+    w.block_on(c.adht.bootstrapped(), 120 * SEC);
+    w.run_for(5 * SEC);
+    // X bootstraps again: explicitly, or by its own 15-minute refresh
+    let explicit = rng.bool();
+    if explicit {
+        match w.block_on(x.adht.bootstrapped(), 120 * SEC) {
+            None => r.violation("islands/bootstrapped-hangs", "bootstrapped() did not return", case.clone(), json!({})),
+            Some(false) => r.violation("islands/not-bootstrapped", "bootstrapped() = false next to live bootstrap servers", case.clone(), json!({})),
+            Some(true) => {}
+        }
+        w.run_for(10 * SEC);
+    } else {
+        w.run_for(17 * MIN);
+    }
+    let nodes = [&x, &z, &b, &c];
+    let addrs: Vec<SocketAddrV4> = nodes.iter().map(|n| n.addr).collect();
+    let mut edges: HashMap<SocketAddrV4, HashSet<SocketAddrV4>> = HashMap::new();
+    for n in nodes.iter() {
+        let known: HashSet<SocketAddrV4> = w.block_on(n.adht.to_bootstrap(), 5 * SEC).unwrap_or_default().iter().filter_map(|a| a.parse().ok()).collect();
+        edges.insert(n.addr, known);
+    }
+    r.count("island_scenarios");
+    r.nontrivial(mix(seed, explicit as u64));
+    let detail = json!({"explicit_bootstrapped_call": explicit, "x_knows": edges[&x.addr].iter().map(|a| a.to_string()).collect::<Vec<_>>(), "b_knows": edges[&b.addr].iter().map(|a| a.to_string()).collect::<Vec<_>>()});
+    if !edges[&b.addr].contains(&x.addr) {
+        r.violation("first-node/did-not-learn-joiner/servers-started-after-the-joiner", "a first node listed in a server's bootstrap list came up later; after that server bootstrapped again the first node still does not know it", case.clone(), detail.clone());
+    }
+    if let Some((from, to)) = strongly_connected(&addrs, &edges) {
+        r.violation("graph/not-strongly-connected/servers-started-after-the-joiner", "two groups of servers (one formed while the bootstrap servers were down) never merged although the bootstrap servers are live", case.clone(), json!({"from": from.to_string(), "unreachable": to.to_string(), "detail": detail}));
+    }
+    drop(x);
+    drop(z);
+    drop(b);
+    drop(c);
+    w.shutdown();
+    for (thread, loc, msg) in crate::take_panics() {
+        r.violation(&format!("panic/{loc}"), &format!("thread {thread} panicked: {msg}"), case.clone(), json!({}));
+    }
+}
+
 pub fn run(a: &Args) -> Report {
     let mut r = Report::new("C13");
     if let Some(path) = &a.replay {
         let v: Value = serde_json::from_str(&std::fs::read_to_string(path).unwrap_or_default()).unwrap_or_default();
         let c = &v["case"];
         let seed = c["seed"].as_str().and_then(|s| s.parse().ok()).unwrap_or(1);
-        if c["class"] == "dead-or-late" {
+        if c["class"] == "islands" {
+            islands(&mut r, seed);
+        } else if c["class"] == "dead-or-late" {
             dead_and_late(&mut r, seed, c["mode"].as_u64().unwrap_or(0) as usize);
         } else {
             let g = |k: &str| c[k].as_u64().unwrap_or(0) as usize;
@@ -321,6 +389,8 @@ pub fn run(a: &Args) -> Report {
             let (s, m) = (rng.u64(), (i / 5 % 2) as usize);
             super::guarded(&mut r, json!({"class":"dead-or-late","seed":s.to_string(),"mode":m}), |r| dead_and_late(r, s, m));
             r.count("dead_or_late_scenarios");
+            let s = rng.u64();
+            super::guarded(&mut r, json!({"class":"islands","seed":s.to_string()}), |r| islands(r, s));
             continue;
         }
         let servers = *rng.pick(&[1usize, 2, 3, 4, 5, 7, 10, 14, 19, 20, 20]);
